@@ -940,3 +940,74 @@ variant('b-feeder-swallows-generator-error', ['C12'], 'rsocket/streams/stream_fr
             self._subscriber.on_error(exception)
             self._cancel_feeders()""", """            logger().error('Stream error', exc_info=True)
             self._cancel_feeders()""", ('C12.f', 'queue_next_n'))
+
+# ----------------------------------------------------------------------------------------------- C18
+EX = 'rsocket/extensions/'
+variant('b-mime-duplicate-id', ['C18'], EX + 'mimetypes.py',
+        "    APPLICATION_XML = WellKnownMimeType(b'application/xml', 0x0A)",
+        "    APPLICATION_XML = WellKnownMimeType(b'application/xml', 0x0B)", ('C18.a', 'WellKnownMimeTypes'))
+variant('b-mime-duplicate-name', ['C18'], EX + 'mimetypes.py',
+        "    AUDIO_MP4 = WellKnownMimeType(b'audio/mp4', 0x0E)", "    AUDIO_MP4 = WellKnownMimeType(b'audio/mp3', 0x0E)",
+        ('C18.a', 'WellKnownMimeTypes'))
+variant('b-mime-id-out-of-range', ['C18'], EX + 'mimetypes.py',
+        "WellKnownMimeType(b'message/x.rsocket.composite-metadata.v0', 0x7F)",
+        "WellKnownMimeType(b'message/x.rsocket.composite-metadata.v0', 0x80)", ('C18.a', 'WellKnownMimeTypes'))
+variant('b-auth-lookup-by-wrong-table', ['C18'], EX + 'authentication_types.py',
+        "type_by_id = map_type_names_by_id(WellKnownAuthenticationTypes)",
+        "type_by_id = map_type_ids_by_name(WellKnownAuthenticationTypes)", ('C18.a', 'require_by_id'))
+variant('b-header-flag-bit6', ['C18'], 'rsocket/helpers.py',
+        "        serialized = ((1 << 7) | known_type & 0b1111111).to_bytes(1, 'big')",
+        "        serialized = ((1 << 6) | known_type & 0b111111).to_bytes(1, 'big')", ('C18.b', 'serialize_well_known_encoding'))
+variant('b-custom-length-not-decremented', ['C18'], FH,
+        "    encoded_encoding_length = encoding_length - 1  # mime length cannot be 0",
+        "    encoded_encoding_length = encoding_length", ('C18.b', 'serialize_well_known_encoding'))
+variant('b-reader-length-no-plus-one', ['C18'], 'rsocket/helpers.py',
+        "        real_mime_type_length = mime_length_or_type + 1  # mime length cannot be 0",
+        "        real_mime_type_length = mime_length_or_type", ('C18.b', 'parse_well_known_encoding'))
+variant('b-native-type-mask-6bits', ['C18', 'C02'], FH,
+        "        length_or_type = data_byte & 0b1111111", "        length_or_type = data_byte & 0b111111", ('C', ''))
+variant('b-mime-guard-too-wide', ['C18'], FH,
+        "    if encoded_encoding_length > 0b1111111:", "    if encoded_encoding_length > 0b11111111:",
+        ('C18.c', 'serialize_128max_value'))
+variant('b-mime-guard-removed', ['C18'], FH,
+        "    if encoded_encoding_length > 0b1111111:\n        raise RSocketMimetypeTooLong(encoding)\n\n", "",
+        ('C18.c', 'serialize_128max_value'))
+variant('b-tag-guard-256', ['C18'], EX + 'tagging.py',
+        "            if len(tag) > 255:", "            if len(tag) > 256:", ('C18.c', '_serialize_tags'))
+variant('b-composite-length-before-header', ['C18'], EX + 'composite_metadata.py',
+        """            item_serialized += metadata_header
+            item_serialized += pack_24bit_length(item_metadata)""", """            item_serialized += pack_24bit_length(item_metadata)
+            item_serialized += metadata_header""", ('C18.d', 'serialize'))
+variant('b-composite-length-of-header', ['C18'], EX + 'composite_metadata.py',
+        "            item_serialized += pack_24bit_length(item_metadata)",
+        "            item_serialized += pack_24bit_length(metadata_header)", ('C18.d', 'serialize'))
+variant('b-composite-reader-skips-two', ['C18'], EX + 'composite_metadata.py',
+        """            length = unpack_24bit(metadata, offset)
+            offset += 3""", """            length = unpack_24bit(metadata, offset)
+            offset += 2""", ('C18.d', 'parse'))
+variant('b-composite-registry-crossed', ['C18'], EX + 'composite_metadata.py',
+        """    WellKnownMimeTypes.MESSAGE_RSOCKET_MIMETYPE.value.name: StreamDataMimetype,
+    WellKnownMimeTypes.MESSAGE_RSOCKET_ACCEPT_MIMETYPES.value.name: StreamDataMimetypes,""",
+        """    WellKnownMimeTypes.MESSAGE_RSOCKET_MIMETYPE.value.name: StreamDataMimetypes,
+    WellKnownMimeTypes.MESSAGE_RSOCKET_ACCEPT_MIMETYPES.value.name: StreamDataMimetype,""",
+        ('C18.e', 'composite registry'))
+variant('b-auth-registry-crossed', ['C18'], EX + 'authentication_content.py',
+        """    WellKnownAuthenticationTypes.SIMPLE.value.name: AuthenticationSimple,
+    WellKnownAuthenticationTypes.BEARER.value.name: AuthenticationBearer,""",
+        """    WellKnownAuthenticationTypes.SIMPLE.value.name: AuthenticationBearer,
+    WellKnownAuthenticationTypes.BEARER.value.name: AuthenticationSimple,""", ('C18.e', 'authentication registry'))
+variant('b-simple-auth-one-byte-length', ['C18'], EX + 'authentication.py',
+        "        serialized[0:2] = struct.pack('>I', len(self.username))[2:]",
+        "        serialized[0:2] = struct.pack('>I', len(self.password))[2:]", ('C18.f', 'AuthenticationSimple.serialize'))
+variant('b-simple-auth-reader-offset', ['C18'], EX + 'authentication.py',
+        "        self.password = buffer[2 + username_length:]", "        self.password = buffer[1 + username_length:]",
+        ('C18.f', 'AuthenticationSimple.parse'))
+variant('b-tag-reader-length-two-bytes', ['C18'], EX + 'tagging.py',
+        """            tag_length = struct.unpack('>B', buffer[offset:offset + 1])[0]
+            offset += 1""", """            tag_length = struct.unpack('>H', buffer[offset:offset + 2])[0]
+            offset += 2""", ('C18.f', 'TaggingMetadata.parse'))
+variant('b-bearer-strips', ['C18'], EX + 'authentication.py',
+        "    def parse(self, buffer: bytes):\n        self.token = buffer", "    def parse(self, buffer: bytes):\n        self.token = buffer[1:]",
+        ('C18.f', 'AuthenticationBearer'))
+variant('t-tag-guard-ge', ['C18'], EX + 'tagging.py',
+        "            if len(tag) > 255:", "            if len(tag) >= 256:", kind='twin')
